@@ -779,6 +779,18 @@ func structural(pkt []byte, dec []decLayer) [][]byte {
 	return out
 }
 
+// chainPanics hands the bytes to gopacket's own decoder chain (the registered slayers decoders with their
+// NextHdr glue), with gopacket's panic recovery switched off, and records a panic as an event.
+func chainPanics(b []byte) {
+	defer func() {
+		if e := recover(); e != nil {
+			w.Emit(vt.M{"ev": "panic", "layer": "gopacket-chain", "origin": "mutant", "in": vt.Ints(b)})
+		}
+	}()
+	p := gopacket.NewPacket(b, slayers.LayerTypeSCION, gopacket.DecodeOptions{NoCopy: true, SkipDecodeRecovery: true})
+	_ = p.Layers()
+}
+
 func runCodec(n int) {
 	rng := vt.Rand(18)
 	for i := 0; i < n; i++ {
@@ -794,6 +806,7 @@ func runCodec(n int) {
 			muts = append(muts, structural(pkt, decodeChain(pkt))...)
 		}
 		for _, m := range muts {
+			chainPanics(m)
 			for _, l := range decodeChain(m) {
 				emitDec(l, "mutant")
 			}
